@@ -16,6 +16,7 @@
 #include <fcntl.h>
 #include <linux/futex.h>
 #include <pthread.h>
+#include <sched.h>
 #include <signal.h>
 #include <stdint.h>
 #include <sys/auxv.h>
@@ -324,6 +325,19 @@ static void *burn_thread(void *arg) {
   return NULL;
 }
 
+// a thread with a descriptor table of its own: it leaves the shared table, opens two files in its private
+// one and sleeps for good
+static void *unshared_fd_thread(void *arg) {
+  long ok = unshare(CLONE_FILES) == 0;
+  if (ok) {
+    (void)open("/dev/zero", O_RDONLY);
+    (void)open("/dev/urandom", O_RDONLY);
+  }
+  __atomic_store_n((long *)arg, ok ? syscall(SYS_gettid) : -1, __ATOMIC_SEQ_CST);
+  for (;;) pause();
+  return NULL;
+}
+
 static void cmd_mkthread(const char *kind) {
   int k = !strcmp(kind, "spin") ? 0 : !strcmp(kind, "block") ? 1 : !strcmp(kind, "count") ? 2 : -1;
   if (k < 0) return reply("err kind");
@@ -597,6 +611,19 @@ int main(int argc, char **argv) {
         pthread_join(th, NULL);
       }
       reply("ok %ld", last);
+    } else if (!strcmp(cmd, "unshared_fd_thread")) {
+      static long utid;
+      utid = 0;
+      pthread_t th;
+      if (pthread_create(&th, NULL, unshared_fd_thread, &utid)) {
+        reply("err pthread_create");
+      } else {
+        while (__atomic_load_n(&utid, __ATOMIC_SEQ_CST) == 0) usleep(200);
+        // the process's own table moves on afterwards
+        (void)open("/dev/null", O_RDONLY);
+        if (utid < 0) reply("err unshare");
+        else reply("ok %ld", utid);
+      }
     } else if (!strcmp(cmd, "newpgrp")) {
       // own process group (not orphaned: the parent sits in another group of the same session), so that
       // job-control stop signals (SIGTSTP ...) are not ignored
